@@ -78,6 +78,8 @@ def build(T):
         origin = PRIMS[T["name"]] if T["name"] else None
         if T["ell"]:
             args = args + [Ellipsis]
+        if T.get("_abstract") and not cons and len(args) == 1:
+            return Rule.parse_annotation(annotation=getattr(typing, T["_abstract"])[args[0]])
         return Rule.annotate(origin, *args, constraints=cons)
     if k in ("union", "xor", "and"):
         args = [build(a) for a in T["args"]]
